@@ -141,3 +141,177 @@ def check_trans_order(facts, rep):
                           'Trans::%s folds %s, i.e. multiplies the factors in order %s; the collapsed and uncollapsed transform must both denote %s' %
                           (nm, sorted(res[nm]), sorted(got), 'f_n ... f_0' if order == 'desc' else 'b_0 ... b_n'),
                           where='yui-matrix/src/sparse/trans.rs')
+
+
+def check_index_maps(facts, rep):
+    """F12 (C13: "index remapping for permute / submat / ..."): each re-indexing operation of SpMat is the literal
+    table below; the entries are read from the path summaries of the function and of the closure it hands to `extract`.
+        from_dense_data   entry k -> (k / ncols, k % ncols)                         (row-major)
+        permute(p, q)     (i, j) -> (p(i), q(j)), shape kept;   permute_rows = permute(p, id(ncols)), permute_cols = permute(id(nrows), q)
+        submat(r, c)      (i, j) -> (i - r.start, j - c.start) iff i in r and j in c, shape (|r|, |c|);  submat_rows = (r, 0..ncols), submat_cols = (0..nrows, c)
+        concat / stack    blocks [a, b, 0, 0] resp. [a, 0, b, 0] of combine_blocks (whose offsets are F8)
+        from_row_perm(p)  entries (p(i), i, 1);   from_col_perm(p)  entries (i, p(i), 1)   (so that row_perm(p) * a = a.permute_rows(p))
+        extract           keeps the value and re-indexes with f(i, j), dropping None."""
+    S = 'yui_matrix::sparse::sp_mat::SpMat::<R>::'
+
+    def dk(t):
+        return re.sub(r'\^_ref__', '^', re.sub(r'#\d+\.\d+', '', show(t, -1000))).replace('&', '').replace('*', '')
+
+    def rets(name):
+        b = facts.bodies.get(S + name)
+        if b is None:
+            return None
+        rep.saw(b)
+        out = set()
+        for p in SymEx(b).run():
+            if p.end == 'return':
+                conds = tuple((dk(e.term), e.value != 0) for e in p.branches() if 'Overflow' not in dk(e.term) and not dk(e.term).startswith(('Le(', 'Eq(arg1.^n')))
+                out.add((dk(p.ret), conds))
+        return out
+    table = {
+        'from_dense_data': {('from_entries(arg1, map(enumerate(into_iter(arg2)), closure<{closure#0}>))', ())},
+        'from_dense_data::{closure#0}': {('(Div(arg2.0, arg1.^n), Rem(arg2.0, arg1.^n), arg2.1)', ())},
+        'permute': {('extract(arg1, shape(arg1), closure<{closure#0}>)', ())},
+        'permute::{closure#0}': {('Option::Some{0: (at(arg1.^p, arg2), at(arg1.^q, arg3))}', ())},
+        'permute_rows': {('permute(arg1, arg2, identity(ncols(arg1)))', ())},
+        'permute_cols': {('permute(arg1, identity(nrows(arg1)), arg2)', ())},
+        'submat': {('extract(arg1, (SubWithOverflow(arg2.end, arg2.start).0, SubWithOverflow(arg3.end, arg3.start).0), closure<{closure#0}>)', ())},
+        'submat::{closure#0}': {('then(0, closure<{closure#0}>)', (('contains(arg1.^rows, arg2)', False),)),
+                                ('then(contains(arg1.^cols, arg3), closure<{closure#0}>)', (('contains(arg1.^rows, arg2)', True),))},
+        'submat::{closure#0}::{closure#0}': {('(SubWithOverflow(arg1.^i, arg1.^i0).0, SubWithOverflow(arg1.^j, arg1.^j0).0)', ())},
+        'submat_rows': {('submat(arg1, arg2, Range::Range{start: 0, end: ncols(arg1)})', ())},
+        'submat_cols': {('submat(arg1, Range::Range{start: 0, end: nrows(arg1)}, arg2)', ())},
+        'concat': {('combine_blocks([arg1, arg2, {closure#0}(closure<{closure#0}>, (0, ncols(arg1))), {closure#0}(closure<{closure#0}>, (0, ncols(arg2)))])', ())},
+        'concat::{closure#0}': {('zero((arg2, arg3))', ())},
+        'stack': {('combine_blocks([arg1, {closure#0}(closure<{closure#0}>, (nrows(arg1), 0)), arg2, {closure#0}(closure<{closure#0}>, (nrows(arg2), 0))])', ())},
+        'stack::{closure#0}': {('zero((arg2, arg3))', ())},
+        'from_row_perm': {('from_entries((dim(arg1), dim(arg1)), map(Range::Range{start: 0, end: dim(arg1)}, closure<{closure#0}>))', ())},
+        'from_row_perm::{closure#0}': {('(at(arg1.^p, arg2), arg2, one())', ())},
+        'from_col_perm': {('from_entries((dim(arg1), dim(arg1)), map(Range::Range{start: 0, end: dim(arg1)}, closure<{closure#0}>))', ())},
+        'from_col_perm::{closure#0}': {('(arg2, at(arg1.^p, arg2), one())', ())},
+        'extract': {('from_entries(arg2, filter_map(iter(arg1), closure<{closure#0}>))', ())},
+        'extract::{closure#0}': {('map(call(arg1.^f, (arg2.0, arg2.1)), closure<{closure#0}>)', ())},
+        'extract::{closure#0}::{closure#0}': {('(arg2.0, arg2.1, clone(arg1.^a))', ())},
+    }
+    # where i0/j0 of submat come from
+    n = 0
+    groups = {}
+    for name, want in table.items():
+        got = rets(name)
+        op = name.split('::')[0]
+        rec = groups.setdefault(op, {'bad': [], 'missing': False})
+        if got is None:
+            if '::' in name:
+                rec['bad'].append('%s is [absent], expected %s' % (name, sorted(x[0] for x in want)[:1]))
+            else:
+                rec['missing'] = True
+            continue
+        n += 1
+        if got != want:
+            rec['bad'].append('%s is %s, expected %s' % (name, sorted(x[0] for x in got)[:2], sorted(x[0] for x in want)[:2]))
+    # submat: i0 = rows.start, j0 = cols.start
+    sb = facts.bodies.get(S + 'submat')
+    if sb is not None:
+        caps = set()
+        for p in SymEx(sb).run():
+            r = strip(p.ret) if p.ret else None
+            if p.end == 'return' and r and r[0] == 'call' and len(r[2]) == 3:
+                clo = strip(r[2][2])
+                if clo[0] == 'closure':
+                    caps.add(tuple(dk(c) for c in clo[2]))
+        groups['submat']['caps'] = caps
+    # a shape that differs from the table is judged by *value* on a small grid where the entry is a closure over indices,
+    # and is INDETERMINATE (never a violation) where it cannot be evaluated: a refactoring must not raise an alarm
+    from dtree import DTree, Stuck
+    dt = DTree(facts)
+
+    def atom_for(env):
+        def atom(t, ev):
+            s = dk(t)
+            m = re.match(r'arg1\.\^(\w+)$', s)
+            if m and m.group(1) in env:
+                return (env[m.group(1)],)
+            if t[0] == 'call' and t[1].split('::')[-1] == 'at' and len(t[2]) == 2:
+                return ((dk(t[2][0]).split('^')[-1], ev(t[2][1])),)
+            if t[0] == 'call' and t[1].split('::')[-1] == 'contains' and len(t[2]) == 2:
+                r = ev(t[2][0])
+                x = ev(t[2][1])
+                if isinstance(r, tuple) and len(r) == 2:
+                    return (int(r[0] <= x < r[1]),)
+            if t[0] == 'call' and t[1].split('::')[-1] == 'one' and not t[2]:
+                return ('1',)
+            if t[0] == 'call' and t[1].split('::')[-1] == 'then' and len(t[2]) == 2:
+                c = ev(t[2][0])
+                if not c:
+                    return (None,)
+                clo = strip(t[2][1])
+                if clo[0] == 'closure' and clo[1] in facts.bodies:
+                    v, _ = dt.decide(clo[1], {1: ('env',)}, atom)
+                    return (v,)
+            if t[0] == 'adt' and t[1].endswith('Option'):
+                return (None,) if t[2] == 'None' else (ev(t[4][0]),)
+            return None
+        return atom
+
+    def semantic(op):
+        """True (agrees with the table on the grid) / False (differs) / None (cannot evaluate)"""
+        try:
+            if op == 'from_dense_data':
+                for n_ in (1, 3, 4):
+                    for k_ in range(0, 13):
+                        v, _ = dt.decide(S + 'from_dense_data::{closure#0}', {2: (k_, 'a')}, atom_for({'n': n_}))
+                        if tuple(v) != (k_ // n_, k_ % n_, 'a'):
+                            return False
+                return True
+            if op == 'submat':
+                for (r0, r1, c0, c1) in ((2, 5, 1, 4), (0, 3, 0, 2), (1, 1, 0, 6)):
+                    for i in range(6):
+                        for j in range(6):
+                            env = {'rows': (r0, r1), 'cols': (c0, c1), 'i0': r0, 'j0': c0, 'i1': r1, 'j1': c1, 'i': i, 'j': j}
+                            v, _ = dt.decide(S + 'submat::{closure#0}', {2: i, 3: j}, atom_for(env))
+                            want_v = (i - r0, j - c0) if (r0 <= i < r1 and c0 <= j < c1) else None
+                            if (tuple(v) if v is not None else None) != want_v:
+                                return False
+                return True
+            if op == 'permute':
+                for i in range(3):
+                    for j in range(3):
+                        v, _ = dt.decide(S + 'permute::{closure#0}', {2: i, 3: j}, atom_for({}))
+                        if v is None or tuple(v) != (('p', i), ('q', j)):
+                            return False
+                return True
+            if op in ('from_row_perm', 'from_col_perm'):
+                for i in range(4):
+                    v, _ = dt.decide(S + op + '::{closure#0}', {2: i}, atom_for({}))
+                    w = (('p', i), i, '1') if op == 'from_row_perm' else (i, ('p', i), '1')
+                    if tuple(v) != w:
+                        return False
+                return True
+        except (Stuck, KeyError, TypeError, ValueError):
+            return None
+        return None
+    for op, rec in sorted(groups.items()):
+        inst = 'SpMat::%s|index map as tabulated' % op
+        if rec['missing']:
+            rep.indet('E8b.F12: a body of SpMat::%s was not found' % op)
+        elif rec['bad']:
+            sem = semantic(op)
+            top_ok = all(('::' in b.split(' is ')[0]) for b in rec['bad'])      # only closure shapes differ
+            if sem is True and top_ok:
+                rep.ok('E8b.F12-index-maps', inst, 'different shape, same values on the grid')
+            elif sem is False:
+                rep.violation('E8b.F12-index-maps', inst, 'the index map of SpMat::%s differs from its definition on a small grid: %s' % (op, '; '.join(rec['bad'])[:500]), where='yui-matrix/src/sparse/sp_mat.rs')
+            else:
+                # wrappers: same callee with permuted arguments is a definite slip, anything else is unknown
+                slip = None
+                for b in rec['bad']:
+                    m = re.match(r"(\w+) is \['(\w+)\((.*)\)'\], expected \['(\w+)\((.*)\)'\]$", b)
+                    if m and m.group(2) == m.group(4) and sorted(m.group(3).split(', ')) == sorted(m.group(5).split(', ')) and m.group(3) != m.group(5):
+                        slip = b
+                if slip:
+                    rep.violation('E8b.F12-index-maps', inst, 'arguments exchanged: ' + slip[:400], where='yui-matrix/src/sparse/sp_mat.rs')
+                else:
+                    rep.indet('E8b.F12: SpMat::%s outside the recognised fragment: %s' % (op, '; '.join(rec['bad'])[:300]))
+        else:
+            rep.ok('E8b.F12-index-maps', inst, 'matches')
+    rep.floor('E8b.F12 SpMat re-indexing bodies', n, 18)
